@@ -244,6 +244,14 @@ fn gen_history(rng: &mut Rng, max_steps: usize) -> (Vec<usize>, Vec<Step>) {
                         if rng.chance(1, 6) {
                             s = doc.units.len();
                             e = s;
+                        } else if rng.chance(1, 5) {
+                            // a range that holds a character outside the basic plane (two UTF-16 units, one character,
+                            // four bytes): lengths in units, characters and bytes all differ
+                            if let Some(u) = (0..doc.units.len()).find(|u| (0xD800..0xDC00).contains(&doc.units[*u])) {
+                                s = *b.iter().filter(|x| **x <= u).last().unwrap_or(&u);
+                                e = (u + 2 + rng.below(3)).min(doc.units.len());
+                                e = *b.iter().filter(|x| **x <= e).last().unwrap_or(&e);
+                            }
                         }
                         if s > e {
                             std::mem::swap(&mut s, &mut e);
